@@ -626,6 +626,120 @@ impl Scenario for Batches {
     }
 }
 
+// ------------------------------------------------------------------------------------------
+// several client threads inside submit() at once (E1 over the executor's queue locks/atomics)
+
+struct ConcurrentSubmit;
+
+impl Scenario for ConcurrentSubmit {
+    fn name(&self) -> String {
+        "WorkStealingExecutor/concurrent-submit".into()
+    }
+    fn budget(&self, tier: Tier) -> u64 {
+        match tier {
+            Tier::Quick => 6000,
+            Tier::Thorough => 400_000,
+        }
+    }
+    fn run(&self, cx: &mut Run) {
+        use zsim_core::e1;
+        zsim_core::hooks::reset();
+        let cfg = cx.src.chan("cfg");
+        let workers = 1 + cfg.below(3) as usize;
+        let capacity = 1 + cfg.below(4) as usize;
+        let nthreads = 2 + cfg.biased_zero(2, 1, 3) as usize;
+        let e1cfg = e1::draw_cfg(&cfg, 6000);
+        cx.ev(format!("executor workers={} capacity={} submitting threads={}", workers, capacity, nthreads));
+        let rt = runtime();
+        // workers are spawned but do not run until the runtime is driven below: the submit phase
+        // only fills the queues, under the baton scheduler
+        let ex = {
+            let _g = rt.enter();
+            WorkStealingExecutor::new(workers, capacity).expect("executor")
+        };
+        let log: Arc<Mutex<Vec<u64>>> = Arc::new(Mutex::new(vec![]));
+        let accepted: Arc<Mutex<Vec<u64>>> = Arc::new(Mutex::new(vec![]));
+        let events: Arc<Mutex<Vec<String>>> = Arc::new(Mutex::new(vec![]));
+        let mut bodies: Vec<e1::Body> = vec![];
+        for t in 0..nthreads {
+            let planned = 1 + cfg.below(4);
+            let mut ops = cx.src.ops(&format!("ops.t{}", t), planned);
+            let mut list = vec![];
+            while let Some(o) = ops.next() {
+                list.push(o);
+            }
+            let ex = ex.clone();
+            let (log, accepted, events) = (log.clone(), accepted.clone(), events.clone());
+            bodies.push(Box::new(move |me: usize| {
+                for (i, o) in list.iter().enumerate() {
+                    let id = (me as u64) * 100 + i as u64;
+                    let prio = (o[0] % 3) as u8;
+                    let log2 = log.clone();
+                    let task = ClosureTask::new(move || {
+                        Box::pin(async move {
+                            log2.lock().unwrap().push(id);
+                            Ok(())
+                        }) as Pin<Box<dyn Future<Output = ZResult<()>> + Send>>
+                    })
+                    .with_priority(prio)
+                    .with_stealable(o[1] % 3 != 0);
+                    let ok = ex.submit(Box::new(task)).is_ok();
+                    if ok {
+                        accepted.lock().unwrap().push(id);
+                    }
+                    events.lock().unwrap().push(format!("t{} submit task{} prio={} -> {}", me, id, prio, if ok { "accepted" } else { "refused" }));
+                }
+            }));
+        }
+        let sched = cx.src.chan("sched");
+        let res = e1::run_threads(&sched, &e1cfg, bodies, None);
+        for e in events.lock().unwrap().iter() {
+            cx.ev(e);
+        }
+        cx.trace.feed(res.hash);
+        cx.steps = res.steps;
+        cx.probe_n("context_switches", res.switches);
+        cx.nontrivial = res.switches >= 1;
+        if let Some(v) = res.violation {
+            cx.violate(&v.class, &v.site, v.detail);
+            return;
+        }
+        let accepted = accepted.lock().unwrap().clone();
+        let queued_before = ex.total_queued();
+        let (idle, executed) = rt.block_on(async {
+            let deadline = tokio::time::Instant::now() + Duration::from_millis(2000);
+            loop {
+                if (log.lock().unwrap().len() >= accepted.len() && ex.is_idle()) || tokio::time::Instant::now() >= deadline {
+                    break;
+                }
+                tokio::time::sleep(Duration::from_millis(5)).await;
+            }
+            let r = (ex.is_idle(), ex.stats().total_executed);
+            let _ = ex.shutdown().await;
+            r
+        });
+        drop(rt);
+        let log = log.lock().unwrap();
+        let mut seen: BTreeMap<u64, u64> = BTreeMap::new();
+        for id in log.iter() {
+            *seen.entry(*id).or_insert(0) += 1;
+        }
+        cx.ev(format!("after the submit phase {} tasks were queued for {} accepted; {} ran", queued_before, accepted.len(), log.len()));
+        if let Some((id, n)) = seen.iter().find(|(_, n)| **n > 1) {
+            cx.violate("task_ran_twice", "WorkStealingExecutor.exactly_once", format!("task{} ran {} times", id, n));
+            return;
+        }
+        let missing: Vec<u64> = accepted.iter().filter(|id| !seen.contains_key(id)).cloned().collect();
+        if !missing.is_empty() {
+            cx.violate("task_never_ran", "WorkStealingExecutor.concurrent_submit", format!("{} of {} accepted tasks never ran (first: task{}); {} were in the queues when the submitting threads finished", missing.len(), accepted.len(), missing[0], queued_before));
+            return;
+        }
+        if !idle || executed != accepted.len() as u64 {
+            cx.violate("not_idle_at_quiescence", "WorkStealingExecutor.is_idle", format!("is_idle()={} total_executed={} accepted={}", idle, executed, accepted.len()));
+        }
+    }
+}
+
 fn main() {
     let mut spec = CheckSpec::new(
         "C18",
@@ -643,6 +757,7 @@ fn main() {
         ("concurrency::fiber_pool::FiberPool", "real"),
         ("concurrency::pipeline::{Pipeline, BatchCollector}", "real"),
         ("tokio runtime", "real current_thread runtime, clock paused (virtual time)"),
+        ("client threads calling submit() concurrently", "real OS threads, one at a time under the E1 baton scheduler (scheduling point at every queue lock / atomic)"),
         ("task bodies / PipelineStage implementations / producers / consumers", "harness actors (seeded delays, failures, hangs)"),
         ("concurrency::{async_blob_store, fiber_aio}", "not run"),
     ];
@@ -652,5 +767,6 @@ fn main() {
     spec.scenarios.push(Box::new(Fibers));
     spec.scenarios.push(Box::new(Pipe));
     spec.scenarios.push(Box::new(Batches));
+    spec.scenarios.push(Box::new(ConcurrentSubmit));
     zsim_core::driver::main(spec);
 }
